@@ -300,20 +300,25 @@ func ruleScp8(c *Ctx) {
 				}
 				sort.Ints(idxs)
 				for _, i := range idxs {
-					edges := c.P.Callers(fn)
+					edges := scpCallers(c, fn, false)
 					nCallers := 0
+					var offenders []string
+					why1 := ""
 					for _, e := range edges {
-						if e.Site == nil || e.Caller.Func == nil || i >= len(e.Site.Common().Args) {
-							continue
-						}
-						if e.Caller.Func.Synthetic != "" {
+						if i >= len(e.Site.Common().Args) {
 							continue
 						}
 						nCallers++
-						if ok, why := b.fresh(e.Caller.Func, e.Site.Common().Args[i], nil, nil, 0); !ok && bad == "" {
-							bad = fmt.Sprintf("%s executes the list on the scope it is given (parameter %s), and its caller %s passes a scope that was not created for the block: %s", fn.Name(), fn.Params[i].Name(), c.P.Name(e.Caller.Func), why)
-							at = e.Site.(ssa.Instruction)
+						if ok, why := b.fresh(e.Caller.Func, e.Site.Common().Args[i], nil, nil, 0); !ok {
+							offenders = append(offenders, fmt.Sprintf("%s (at %s)", c.P.Name(e.Caller.Func), c.Pos(e.Site.(ssa.Instruction))))
+							if why1 == "" {
+								why1 = why
+							}
 						}
+					}
+					if len(offenders) > 0 && bad == "" {
+						bad = fmt.Sprintf("%s executes the list on the scope it is given (parameter %s), and %d of its %d caller(s) pass a scope that was not created for the block — %s: %s", fn.Name(), fn.Params[i].Name(), len(offenders), nCallers, strings.Join(offenders, ", "), why1)
+						at = s.pos
 					}
 					if nCallers == 0 && bad == "" {
 						bad = fmt.Sprintf("%s executes the list on the scope it is given (parameter %s) and has no caller that creates one", fn.Name(), fn.Params[i].Name())
